@@ -505,13 +505,27 @@ impl<'a, SE: extensions::ShellExtensions> SimpleCommand<'a, SE> {
         self,
         func_registration: functions::Registration,
     ) -> Result<ExecutionSpawnResult, error::Error> {
-        let mut shell = self.shell;
+        // A function that is one of several pipeline stages has a shell of its own: start it
+        // and move on, as is done for builtins, so that every stage is running before any of
+        // them is waited for.
+        let (mut shell, params) = match self.shell {
+            ShellForCommand::OwnedShell { target, .. } => {
+                return Ok(Self::execute_via_function_in_owned_shell(
+                    *target,
+                    self.params,
+                    func_registration,
+                    self.command_name,
+                    self.args,
+                ));
+            }
+            shell @ ShellForCommand::ParentShell(..) => (shell, self.params),
+        };
         let last_arg = Self::take_last_arg(&self.args);
 
         let cmd_context = ExecutionContext {
             shell: &mut shell,
             command_name: self.command_name,
-            params: self.params,
+            params,
         };
 
         // Strip the function name off args.
@@ -528,6 +542,38 @@ impl<'a, SE: extensions::ShellExtensions> SimpleCommand<'a, SE> {
         }
 
         result
+    }
+
+    fn execute_via_function_in_owned_shell(
+        mut shell: Shell<SE>,
+        params: ExecutionParameters,
+        func_registration: functions::Registration,
+        command_name: String,
+        args: Vec<CommandArg>,
+    ) -> ExecutionSpawnResult {
+        let last_arg = Self::take_last_arg(&args);
+        let join_handle = tokio::task::spawn_blocking(move || {
+            let cmd_context = ExecutionContext {
+                shell: &mut shell,
+                command_name,
+                params,
+            };
+
+            let rt = tokio::runtime::Handle::current();
+            let result = rt.block_on(async {
+                // Strip the function name off args.
+                let spawn_result =
+                    invoke_shell_function(func_registration, cmd_context, &args[1..]).await?;
+                Ok(spawn_result.wait().await?.into())
+            });
+
+            // Update $_ after the function has run.
+            shell.update_last_arg_variable(last_arg);
+
+            result
+        });
+
+        ExecutionSpawnResult::StartedTask(join_handle)
     }
 
     fn execute_via_external(self, path: &Path) -> Result<ExecutionSpawnResult, error::Error> {
